@@ -88,6 +88,7 @@ class MinimizeRecorder:
                 out = rec._orig(*args, **kwargs)
                 # parameter values as returned by the optimiser (before the caller edits them)
                 rec.calls[-1]["result"] = {k: v.value for k, v in out.params.items()}
+                rec.calls[-1]["chisqr"] = float(getattr(out, "chisqr", float("nan")))
                 # lmfit 1.3.4: a fit aborted by max_nfev returns optimiser-internal leftovers that are not
                 # reproducible for identical input (measured); differential oracles must skip such fits
                 rec.calls[-1]["aborted"] = bool(getattr(out, "aborted", False))
